@@ -11,3 +11,35 @@ chk("C10", "enum", "bounded exhaustive enumeration of Add/Close histories vs exa
     "Every ordered sequence of length <=4 (thorough 5) over a 7-element pool of boundary results, with every placement of intermediate Close calls, is run on the real Metrics type and compared field by field with an independent exact reference; all permutations / Close placements of a multiset must agree (differential oracle). Exhaustive within that scope.",
     "Small-scope hypothesis: values outside the pool and sequences longer than the bound are not explored (thorough adds four 1e5-element deterministic families as a non-exhaustive scale check). Conventions at zero duration follow the code. encoding/json trusted.",
     "DESIGN.md section 3 C10")
+
+_A_NOTE = ("Assumes data-race freedom of the code between two hooked operations (happens-before state cache and eager local steps rely on it; "
+           "a free-running -race companion checks it separately and is not the deciding step). net/http's client, the fake transport and everything "
+           "not rewritten run uninstrumented inside one scheduler step. The shim's channel/select/sync semantics are validated against the Go runtime by the SELFTEST litmus suite. "
+           "Coverage is bounded: <=3 workers, <=4 released hits, stated preemption bound per scenario (reported per scenario in the evidence).")
+
+chk("C02", "vsched", "stateless schedule exploration of the real Attack/Stop code under a controlled scheduler (iterative preemption bounding + happens-before cache)",
+    "Every interleaving of attacker loop, workers, consumer, 0-2 Stop callers, response completions and targeter failures is explored for every (workers,max-workers) pair up to 3 and up to 3 released hits (thorough 4): unbounded for the small scenarios, preemption bound 1-3 for the larger ones. Monitors check on every state / execution: one result per started hit, sequence numbers 0..n-1, channel closed exactly once after the last delivery, no goroutine left (incl. the DNS refresh goroutine), at most one Stop reporting true, no deadlock, no panic.",
+    _A_NOTE, "DESIGN.md section 3 C02, 2.1")
+chk("C03", "vsched", "stateless schedule exploration under a controlled scheduler; state invariants on every visited state",
+    "Same engine; scenarios release max-workers+1 hits with a slow consumer and slow responses, for initial workers 0..4 and max-workers 1..3. In every visited state: hits in flight <= max-workers and worker goroutines <= max-workers; in every state where only the environment can move and the attacker is parked in the blocking hand-off, exactly max-workers hits are in flight (free capacity is always used).",
+    _A_NOTE, "DESIGN.md section 3 C03")
+chk("C04", "vsched", "stateless schedule exploration with a virtual clock and an adversarial pacer whose answers are explored exhaustively",
+    "The pacer's answer (stop, or a wait from {0,5ns,-3ns} combined with a late return of {0,3ns}) is an explored choice at every call, for durations {0,1ns,10ns}, workers/max in {1,2}^2, 2-3 released hits; all interleavings up to the stated preemption bound. Oracle per execution: Pace sees hits=0,1,2.. once each with the true elapsed time, non-decreasing; the k-th hit to start does so no earlier than the k-th release time; no Pace call after the duration; at most one hit released after the deadline; nothing after stop.",
+    _A_NOTE + " Time is the scheduler's virtual clock (reads are hooked operations); real timers are never consulted.", "DESIGN.md section 3 C04")
+chk("C05", "vsched", "stateless schedule exploration with a ticking virtual clock (every clock read is an ordered event)",
+    "2-3 workers pushed through the hit path concurrently with a clock that advances on every read; all interleavings up to the stated preemption bound (unbounded for 2 workers/2 hits in thorough). Oracle: sequence order == strict timestamp order, start <= timestamp < transport entry, latency >= transport time and covers the body read, End == Timestamp+Latency.",
+    _A_NOTE, "DESIGN.md section 3 C05")
+
+_B_NOTE = "Small-scope hypothesis: inputs outside the stated alphabets / longer than the stated bounds are not explored. Standard library codecs (encoding/gob, encoding/csv, encoding/json) are exercised but trusted as building blocks of the reference readers."
+chk("C07", "enum", "bounded exhaustive enumeration of records/sequences through all three codecs vs an independent reader of the documented layout",
+    "Reflection-driven boundary alphabets per Result field; every single-field variation, every pair of field values (thorough: triples), every text of length <=4 over a quoting alphabet in every text field, every sequence of length <=3 over a heterogeneous pool, through gob/CSV/JSON; compared with the codec's decoder AND an independently written CSV (RFC 4180) / JSON reader of the documented columns and keys.",
+    _B_NOTE, "DESIGN.md section 3 C07")
+chk("C08", "enum", "bounded exhaustive enumeration of reader chunkings, junk strings and transcoding chains on the real DecoderFor/encode code",
+    "Every two-chunk split and fixed chunk size (and every three-chunk split of short streams) of 31 streams x 3 encodings through DecoderFor; all 22 621 junk strings of length <=4 over 12 symbols, all proper prefixes and bit flips of short streams (DecoderFor nil iff all decoders reject); all 120 transcoding chains of length <=4 x 9 sources through the in-process encode command.",
+    _B_NOTE, "DESIGN.md section 3 C08")
+chk("C09", "enum", "crash-point enumeration: every byte offset (gob, JSON) / record boundary (CSV) of every stream, every Encode/Write boundary",
+    "Each stream is cut at every byte offset; the decoder must return exactly the completely written records and then fail, forever after. A write-logging writer checks after every Encode (and every Write for gob/JSON) that nothing is held back.",
+    _B_NOTE, "DESIGN.md section 3 C09")
+chk("C13", "enum", "bounded exhaustive enumeration of all splits of a result sequence over files x encoding assignments, library and command level",
+    "Every surjective assignment of n<=7 records to k<=3 files x every encoding assignment (k=4..6 with 6 encoding patterns) through NewRoundRobinDecoder(DecoderFor..); the report (json/text/hist/hdrplot) and encode commands end-to-end for n<=4 (thorough 5) compared with the single-file run.",
+    _B_NOTE + " Percentile estimates are excluded from the cross-split comparison (they depend on insertion order; C11 bounds them).", "DESIGN.md section 3 C13")
